@@ -251,6 +251,33 @@ def run(ctx):
 
 
 def replay(prop, path):
+    """Re-execute a recorded C15 violation on the current tree and re-validate it with TLC."""
     rep = json.load(open(path))
-    print('replay of C15 cases re-runs the family; use ./check C15')
+    sc = rep['scenario']
+    fam = rep.get('family')
+    drivers = {'batcher_forms': ('harness.drivers.batcher', 'batcher', 'BatcherTrace'),
+               'buffer_forms': ('harness.drivers.buffer', 'buffer', 'BufferTrace'),
+               'cache_forms': ('harness.drivers.pure', 'pure', 'KeysTrace'),
+               'multi_loop': ('harness.drivers.batcher', 'batcher', 'BatcherTrace')}
+    drv, comp, trace = drivers[fam]
+    hit = None
+    if 'a' in sc and 'b' in sc and rep['clause'] == 'C15_FormsEquivalent':
+        ra = pool.run_one(drv, sc['a'])
+        rb = pool.run_one(drv, sc['b'])
+        v, _ = tlc.validate_batch('forms', 'FormsTrace', [{'a': strip(ra['events']), 'b': strip(rb['events'])}])
+        hit = v[0].get('C15')
+    else:
+        r = pool.run_one(drv, sc)
+        traces = [r['events']]
+        if fam == 'multi_loop':
+            traces = [tr for lp, tr in sorted(project_loops(sc, r).items())]
+        v, _ = tlc.validate_batch(comp, trace, traces)
+        for vv in v:
+            for p, h in vv.items():
+                if h is not None and hit is None:
+                    hit = h
+    print('replay verdict:', hit)
+    if hit is not None:
+        print('VIOLATION property=C15 replay=%s clause=%s' % (path, hit[0]))
+        return 1
     return 0
